@@ -74,3 +74,9 @@ check("C06", "exploration",
       [native("thorough"), miri(shards=8)],
       minima={"exhaustive_strings": {"quick": 1 << 20, "thorough": 1 << 24}, "mutants_accepted": 1000, "errors_v6": 7, "errors_v7": 8,
               "bomb[huffman-bomb]": 100, "chunks_iterated": 10000})
+
+check("C07", "exploration",
+      [native("quick")],
+      [native("thorough"), miri(shards=8)],
+      minima={"exhaustive_inputs": 65793, "reference_compress_compared": 10000, "reference_decoded_ok": 10000, "decompress_runaway": 1000,
+              "decompress_capacity_probes": 100000, "compress_capacity_probes": 100000, "tables[ties]": 10, "tables[uniform]": 10})
